@@ -30,6 +30,7 @@ import RosuModel.Model.SkillWire
 import RosuModel.Model.TaikoPreWire
 import RosuModel.Model.PipelineWire
 import RosuModel.Model.CurveWire
+import RosuModel.Model.PipelineCurveWire
 
 open Rosu
 
@@ -113,6 +114,8 @@ def handle (line : String) : String :=
     PipelineManiaConvert.Wire.handlePIPEMC keys hp cs od ar cd clock take ho inv gidx timing objs
   | ["PIPE", "catch", version, sm, tr, hr, refl, cs, ar, clock, conv, take, gidx, objs] =>
     PipelineCatch.Wire.handlePIPEC version sm tr hr refl cs ar clock conv take gidx objs
+  | ["PIPE", "catchcurve", version, sm, tr, hr, refl, cs, ar, clock, conv, take, gidx, objs] =>
+    PipelineCatch.Wire.handlePIPECC version sm tr hr refl cs ar clock conv take gidx objs
   | ["CURVE", mode, cps, expected, prev, progress] => Curve.Wire.handleCURVE mode cps expected prev progress
   | ["CURVES", mode, sliders, progress] => Curve.Wire.handleCURVES mode sliders progress
   | _ => "bad-op"
